@@ -32,8 +32,8 @@ ep-run-hits-no-properness-assertion
     properness conditions themselves, so tripping one means an improper intermediate posterior.  The known
     "Use fewer rescaling intervals" assertion (DESIGN 6-F7, time-rescaling stage) is not judged here.
 known-root-regularisation-improper-cavity-assertion      (DEFECT found by this module, isolated here)
-    same requirement, for the one condition under which the unchanged code violates it: `assert penalty > 0` in
-    ExpectationPropagation.propagate_prior.  The root-regularisation update forms the cavity
+    same requirement, for the one condition under which the unchanged code violates it: `assert penalty > 0` (or the
+    `0 < x[1]` assertion of _rescale reached from it) in ExpectationPropagation.propagate_prior.  The root-regularisation update forms the cavity
     posterior - prior_message without the damping used for edge messages; when a root's posterior rate has dropped
     below its current prior message the cavity rate is <= 0 and the EM penalty is not positive.  Seen only with
     regularise_roots=True, max_shape >= 1e6 (not the default 1000), historical / internal samples and a mutation
@@ -337,10 +337,12 @@ def unphased_singletons(ts):
 def root_cavity_diagnosis(tsdate, ts, cfg):
     """Recognise the known propagate_prior defect by its mechanism.  Returns a description, or None when the failure
     is something else.  All of the following must hold: (1) the identical EP run completes with regularise=False
-    (propagate_prior is the only code under that switch); (2) re-running with regularise=True fails in some
-    iteration, and at that moment (the assertion precedes any write) every unconstrained root still has a PROPER
+    (propagate_prior is the only code under that switch); (2) re-running with the regularisation as a separate step
+    fails inside propagate_prior in some iteration, and ENTERING that call every unconstrained root has a PROPER
     posterior (shape > 0, rate > 0, finite), i.e. no node is missing its first message; (3) for at least one such
-    root the cavity  posterior - scale * prior_message  has a non-positive rate or shape."""
+    root the cavity  posterior - scale * prior_message  has a non-positive rate or shape (which then trips either
+    `assert penalty > 0` or, when the pooled penalty is positive but smaller than one root's deficit, the
+    `0 < rate` assertion of _rescale called from propagate_prior)."""
     EP = tsdate.variational.ExpectationPropagation
     mk = dict(mutation_rate=cfg["mutation_rate"], singletons_phased=cfg["singletons_phased"])
     try:
@@ -349,20 +351,28 @@ def root_cavity_diagnosis(tsdate, ts, cfg):
             alt.iterate(max_shape=cfg["max_shape"], regularise=False)
     except Exception:
         return None
+    # Re-run with the root regularisation applied as a separate step (iterate(regularise=False) followed by
+    # propagate_prior and the scale fold: the same computation as iterate(regularise=True) up to one extra,
+    # meaning-preserving fold of the scales), so that the state ENTERING propagate_prior can be inspected.
     fit = EP(ts, **mk)
     for it in range(cfg["max_iterations"]):
         try:
-            fit.iterate(max_shape=cfg["max_shape"], regularise=True)
+            fit.iterate(max_shape=cfg["max_shape"], regularise=False)
+        except Exception:
+            return None
+        roots = np.flatnonzero(np.array(fit.unconstrained_roots))
+        P = np.array(fit.node_posterior)[roots]
+        prior = np.array(fit.factors.node)[roots, 0] * np.array(fit.factors.scale)[roots, None]
+        try:
+            fit.propagate_prior(fit.unconstrained_roots, fit.node_posterior, fit.factors, float(cfg["max_shape"]), 10, 1e-8)
+            tsdate.variational._rescale_factors(fit.factors)
         except AssertionError:
-            roots = np.flatnonzero(np.array(fit.unconstrained_roots))
-            P = np.array(fit.node_posterior)[roots]
             proper = np.all(np.isfinite(P)) and np.all(P[:, 0] > -1) and np.all(P[:, 1] > 0)
-            prior = np.array(fit.factors.node)[roots, 0] * np.array(fit.factors.scale)[roots, None]
             cav = P - prior
             bad = (cav[:, 1] <= 0) | (cav[:, 0] <= -1)
             if proper and np.any(bad):
-                return {"iteration": it + 1, "roots": roots[bad], "posterior": P[bad], "prior_message": prior[bad],
-                        "cavity": cav[bad]}
+                return {"iteration": it + 1, "roots": roots[bad], "posterior_entering_propagate_prior": P[bad],
+                        "prior_message": prior[bad], "cavity": cav[bad]}
             return None
         except Exception:
             return None
